@@ -29,14 +29,15 @@ RECURSIVE Norm(_)
 Norm(j) ==
     CASE j.kind \in {"int", "float", "string"}    -> ScalarU(j.kind, j.min, j.max, j.units)
       [] j.kind \in {"bool", "pattern", "any"}     -> [kind |-> j.kind]
-      [] j.kind \in {"enum_int", "enum_string"}    -> Enum(j.kind, Range(j.values), j.named)
+      [] j.kind \in {"enum_int", "enum_string"}    -> EnumS(j.kind, Range(j.values), j.named, j.spell)
       [] j.kind = "list"   -> ListI(Norm(j.items), j.min, j.max, j.impl)
       [] j.kind = "map"    -> MapI(Norm(j.keys), Norm(j.vals), j.min, j.max, j.impl)
-      [] j.kind = "object" -> ObjectI(j.id, {PropX(p.name, Norm(p.type), p.required, p.has_default, p.disabled) : p \in Range(j.props)},
+      [] j.kind = "object" -> ObjectI(j.id, {PropR(p.name, Norm(p.type), p.required, p.has_default, p.disabled, Range(p.conflicts),
+                                                  Range(p.required_if), Range(p.required_if_not)) : p \in Range(j.props)},
                                       j.id_unenforced, j.impl)
       [] j.kind = "ref"    -> Ref(j.id)
       [] j.kind = "scope"  -> Scope(j.root, {Norm(o) : o \in Range(j.objects)})
-      [] j.kind = "oneof"  -> OneOf(j.disc, j.field, {Member(m.key, Norm(m.obj)) : m \in Range(j.members)})
+      [] j.kind = "oneof"  -> OneOfI(j.disc, j.field, {Member(m.key, Norm(m.obj)) : m \in Range(j.members)}, j.inline)
 
 LineOK(e) == VerdictOK(Norm(e.a), Norm(e.b), e.verdict)
 
